@@ -276,10 +276,16 @@ fn history(req: &Value) -> Value {
                 let kind = step["kind"].as_str().unwrap().to_string();
                 if let Err(e) = rewrite(&actions, |f| {
                     let id = quote::format_ident!("{}", name);
-                    let item: syn::Item = if kind == "fn" {
-                        syn::parse_quote!(pub fn #id() -> usize { 42 })
-                    } else {
-                        syn::parse_quote!(pub struct #id { pub x: usize })
+                    let item: syn::Item = match kind.as_str() {
+                        "fn" => syn::parse_quote!(pub fn #id() -> usize { 42 }),
+                        // items without a name of their own in the two namespaces: they are
+                        // kept, never required
+                        "use" => syn::parse_quote!(use std::collections::BTreeMap as #id;),
+                        "const" => syn::parse_quote!(pub const #id: usize = 7;),
+                        "impl" => syn::parse_quote!(impl Default for #id { fn default() -> Self { todo!() } }),
+                        "mod" => syn::parse_quote!(#[cfg(test)] mod #id { #[test] fn t() { assert_eq!(1 + 1, 2); } }),
+                        "macro" => syn::parse_quote!(macro_rules! #id { () => { 1 }; }),
+                        _ => syn::parse_quote!(pub struct #id { pub x: usize }),
                     };
                     let at = at.min(f.items.len());
                     f.items.insert(at, item);
